@@ -182,11 +182,23 @@ def _s_redirect(ctx):
     follow = lin_expect({"redirectCount": -1, "self._redirectLimit": 1}, 1)        # redirectCount < limit
     limit_tests = [(t, lab) for t, lab in g.edge_guards(rn) if lincmp(g.node(t).ast) is not None and "redirectCount" in src(g.node(t).ast) and "_redirectLimit" in src(g.node(t).ast)]
     if not limit_tests:
-        all_tests = [t for t in g.ids(lambda x: x.kind == "test") if "redirectCount" in src(g.node(t).ast)]
-        if all_tests:
-            ctx.violation("limit/dominates-follow", q + " | self._agent.request(...)", "the next request is not dominated by the redirect-limit test (some path follows a redirect without checking the count)")
-        else:
+        all_tests = [t for t in g.ids(lambda x: x.kind == "test") if lincmp(g.node(t).ast) is not None and "redirectCount" in src(g.node(t).ast) and "_redirectLimit" in src(g.node(t).ast)]
+        if not all_tests:
             raise Abstain("no comparison of redirectCount with the limit in the normalised _handleRedirect")
+        # the limit test does not dominate the request syntactically: evaluate the paths (a verdict recorded in a flag under the test and acted on later)
+        from sa.props._lib_f import flag_feasible_path
+        unchecked = flag_feasible_path(g, [g.entry], [rn], avoid=all_tests)
+        over = []
+        for t in all_tests:
+            lab_follow = "T" if lincmp(g.node(t).ast) == follow else ("F" if lincmp(g.node(t).ast, negate=True) == follow else None)
+            if lab_follow is None:
+                over.append((t, None))
+            elif flag_feasible_path(g, [g.entry], [rn], must_take=(t, "F" if lab_follow == "T" else "T")):
+                over.append((t, lab_follow))
+        ctx.check(not unchecked and not over, "limit/dominates-follow", q + " | self._agent.request(...)",
+                  ("a path reaches the next request without comparing redirectCount with the limit" if unchecked else
+                   f"the next request can be reached although `{src(g.node(over[0][0]).ast)}` said the limit is reached (at most `limit` redirects may be followed)") if (unchecked or over) else "",
+                  detail="path-sensitive: the limit verdict is carried in a local flag")
     else:
         ok = any(lincmp(g.node(t).ast, negate=(lab == "F")) == follow for t, lab in limit_tests)
         ctx.check(ok, "limit/dominates-follow", q + " | self._agent.request(...)",
@@ -535,6 +547,7 @@ def _methods(ctx):
 
 
 MUTANTS = [
+    Mutant("limit-verdict-flag-overwritten", CL, "        if redirectCount >= self._redirectLimit:\n            err = error.InfiniteRedirection(\n                response.code, b\"Infinite redirection detected\", location=uri\n            )\n            raise ResponseFailed([Failure(err)], response)\n        locationHeaders = response.headers.getRawHeaders(b\"location\", [])\n        if not locationHeaders:\n            err = error.RedirectWithNoLocation(\n                response.code, b\"No location header field\", uri\n            )\n            raise ResponseFailed([Failure(err)], response)\n", "        err = None\n        if redirectCount >= self._redirectLimit:\n            err = error.InfiniteRedirection(\n                response.code, b\"Infinite redirection detected\", location=uri\n            )\n        locationHeaders = response.headers.getRawHeaders(b\"location\", [])\n        if not locationHeaders:\n            err = error.RedirectWithNoLocation(\n                response.code, b\"No location header field\", uri\n            )\n        else:\n            err = None\n        if err is not None:\n            raise ResponseFailed([Failure(err)], response)\n"),
     Mutant("next-hop-told-get-whatever-was-requested", CL, "            self._handleResponse, method, uri, headers, redirectCount + 1, location\n", "            self._handleResponse, b\"GET\", uri, headers, redirectCount + 1, location\n",
            expect_rule="pairing/method-handed-on"),
     Mutant("see-other-switch-applied-to-the-request-only", CL, "        deferred = self._agent.request(method, location, headers)\n",
@@ -571,6 +584,7 @@ MUTANTS = [
            "            return self._handleRedirect(\n                response, method, uri, headers, redirectCount\n            )"),
 ]
 SILENT = [
+    Silent("limit-verdict-carried-in-a-flag", CL, "        if redirectCount >= self._redirectLimit:\n            err = error.InfiniteRedirection(\n                response.code, b\"Infinite redirection detected\", location=uri\n            )\n            raise ResponseFailed([Failure(err)], response)\n        locationHeaders = response.headers.getRawHeaders(b\"location\", [])\n        if not locationHeaders:\n            err = error.RedirectWithNoLocation(\n                response.code, b\"No location header field\", uri\n            )\n            raise ResponseFailed([Failure(err)], response)\n", "        err = None\n        if redirectCount >= self._redirectLimit:\n            err = error.InfiniteRedirection(\n                response.code, b\"Infinite redirection detected\", location=uri\n            )\n        else:\n            locationHeaders = response.headers.getRawHeaders(b\"location\", [])\n            if not locationHeaders:\n                err = error.RedirectWithNoLocation(\n                    response.code, b\"No location header field\", uri\n                )\n        if err is not None:\n            raise ResponseFailed([Failure(err)], response)\n"),
     Silent("method-of-the-next-hop-by-local-name", CL, "        deferred = self._agent.request(method, location, headers)\n", "        nextMethod = method\n        deferred = self._agent.request(nextMethod, location, headers)\n",
            more=[(CL, "            self._handleResponse, method, uri, headers, redirectCount + 1, location\n", "            self._handleResponse, nextMethod, uri, headers, redirectCount + 1, location\n")]),
     Silent("previous-response-linked-by-module-function", CL, "        def _chainResponse(newResponse):\n            newResponse.setPreviousResponse(response)\n            return newResponse\n\n        deferred.addCallback(_chainResponse)\n",
